@@ -111,4 +111,46 @@ def run(ctx, config):
                 r3.bad("K12:%s:unchecked:evrpc_pause_request" % g.name, el.where(), g.name,
                        "evrpc_pause_request can fail (allocation); here its result is ignored and the function returns as if the request were parked: it never completes")
     rules.append(r3)
+    rules.append(rule_reschedule(P, fns))
     return rules
+
+
+
+def rule_reschedule(P, fns):
+    """liveness half of exactly-once: requests wait in pool->requests until evrpc_pool_schedule finds them a connection; every point at which a request leaves the
+    system (its completion callback ran) must be followed by a look at the queue, otherwise queued requests wait for an event that may never come"""
+    r = Rule("C43-reschedule", "K3", "after every client-side completion the pool's queue is looked at again (evrpc_pool_schedule), in the completing function or in every caller", floor=3)
+    byname = {f.name: f for f in fns}
+    sched = lambda x: x.e[0] == "call" and callee_name(x.e) == "evrpc_pool_schedule"
+    used_as_value = set(rf["fn"] for rf in P.fnrefs if rf["fn"] in byname)
+    indirect_callers = [(f, el) for f in fns for el in f.elems() if el.e[0] == "call" and callee_name(el.e) is None and (callee_slot(el.e) or "").startswith("evrpc_hook_ctx.")]
+    for f in fns:
+        for el in f.elems():
+            if not (el.e[0] == "call" and callee_slot(el.e) == CB_SLOT):
+                continue
+            local = f.exit_reachable_avoiding(el.pos(), sched) is None
+            via = []
+            ok = local
+            if not local:
+                # every way into f must schedule after f returns
+                ok = True
+                callers = [(g, c) for g in fns for c in g.calls(f.name)]
+                if f.name in used_as_value:
+                    callers += indirect_callers
+                if not callers:
+                    ok = False
+                for g, c in callers:
+                    if g.name == "evrpc_pool_schedule":
+                        # called from the scheduler itself: it must go on with the queue after a request that could not be started
+                        good = g.exit_reachable_avoiding(c.pos(), lambda x: sched(x) or (x.e[0] == "call" and callee_name(x.e) == f.name and x is not c)) is None
+                    else:
+                        good = g.exit_reachable_avoiding(c.pos(), sched) is None
+                    via.append((g.name, c.where(), good))
+                    ok = ok and good
+            r.inst((f.name, el.n), {"fn": f.name, "completion": el.where(), "schedules_afterwards_locally": local, "callers": via})
+            if not ok:
+                badc = [v for v in via if not v[2]]
+                r.bad("K3:%s:completion-without-reschedule" % f.name, el.where(), f.name,
+                      "a request completes here and %s: requests still queued on the pool are not given the free connection until some unrelated event looks at the queue (they may never complete)" % (
+                          "neither this function nor its caller %s (%s) calls evrpc_pool_schedule afterwards" % (badc[0][0], badc[0][1]) if badc else "nothing calls evrpc_pool_schedule afterwards"))
+    return r
